@@ -192,14 +192,14 @@ pub mod maps {
         }
     }
     impl<T: std::borrow::BorrowMut<MapData>, K: Pod, V: Pod> HashMap<T, K, V> {
-        pub fn insert(&mut self, key: impl std::borrow::Borrow<K>, value: impl std::borrow::Borrow<V>, _flags: u64) -> Result<(), MapError> {
+        pub fn insert(&mut self, key: impl std::borrow::Borrow<K>, value: impl std::borrow::Borrow<V>, flags: u64) -> Result<(), MapError> {
             let idx = self.inner.borrow().idx;
             let name = kernel::MAP_NAMES[idx];
             if vrt::active() && vrt::buggify(&format!("aya.map_insert.{}", name)) {
                 vrt::log("kern", format!("user insert {} -> error (injected)", name));
                 return Err(MapError::SyscallError("bpf_map_update_elem failed (injected)".into()));
             }
-            let r = kernel::map_update(idx, bytes_of(key.borrow()), bytes_of(value.borrow()));
+            let r = kernel::map_update_flags(idx, bytes_of(key.borrow()), bytes_of(value.borrow()), flags);
             if vrt::active() {
                 vrt::log("kern", format!("user insert {} key={:02x?} value={:02x?} -> {}", name, bytes_of(key.borrow()), bytes_of(value.borrow()), r));
             }
